@@ -71,6 +71,8 @@ def quant_alphabet(kind):
         # fence once the column is negated)
         "fence": [1.0, 1.0, 1.0, 2.0, 1.0, 2.0, 2.0, 3.0, 3.0, 3.0, 3.0, 6.0],
         "fence2": [3.0, 3.0, 2.0, 3.0, 3.0, 2.0, 2.0, 1.0, 1.0, 1.0, 1.0, -2.0],
+        # one value far away: |z| = 3.16 > 3 with 12 rows (the z-score outlier measure bites), associated with the target
+        "spike": [1.0, 1.0, 1.0, 1.0, 1.0, 1.0, 2.0, 2.0, 2.0, 2.0, 2.0, 50.0],
         # a correlated cluster with a third feature ranked in between (found once by search, classification targets):
         # H(first) > H(second) > H(shadow), |r|(first, shadow) ~ 0.8, |r|(first, second) ~ 0.5, |r|(second, shadow) < 0.3
         **CLUSTER.get(kind, {}),
